@@ -11,7 +11,7 @@ INFO = {
                    "seeded generator is ChaCha20Rng::from_seed(keccak256(seed[all bytes])) and the seeded functions reach no other source of "
                    "entropy, time, environment or global state (R14-2, effect inventory over the resolved callees on every path); the four "
                    "RLN::*key_gen entry points write the tuple components in order through fr_to_bytes_le and pass the whole input to the "
-                   "generator (R14-3). FFI pass-through is C11.",
+                   "generator (R14-3). FFI pass-through is C11. R14-4 (shared with C09): the hash of the commitment relations is pure (no state shared between threads) and has the specified permutation shape.",
     "not_decided": "distinctness of identities for distinct seeds / unseeded calls (probabilistic), the documented reference identities (pinned by tests)",
     "assumptions": ["Fr::rand, ChaCha20Rng::from_seed, Keccak::v256 are deterministic functions of their arguments (library semantics)"],
 }
@@ -156,3 +156,12 @@ def run(ctx):
         check_export(ctx, fb, cfg, "rln::public::RLN::extended_key_gen", "rln::protocol::extended_keygen", 4, False)
         check_export(ctx, fb, cfg, "rln::public::RLN::seeded_key_gen", "rln::protocol::seeded_keygen", 2, True)
         check_export(ctx, fb, cfg, "rln::public::RLN::seeded_extended_key_gen", "rln::protocol::extended_seeded_keygen", 4, True)
+    # R14-4 (shared with C09 R09-3 / R09-4): the H of the commitment relations is a pure function with the specified permutation shape
+    # (no cache or other state shared between threads on the hashing path)
+    from . import c09
+    from ..main import Ctx as _Ctx4
+    sub4 = _Ctx4(ctx.pid, ctx.tier)
+    c09.check_entries(sub4, ctx.fb("default"))
+    c09.check_shape(sub4, ctx.fb("default"))
+    for r in sub4.results:
+        (ctx.ok if r.status == "ok" else ctx.fail)("R14-4", r.instance, r.reason, r.loc)
